@@ -3,8 +3,9 @@
 import sys, json, os, subprocess, tempfile, re
 doc = json.load(open(sys.argv[1]))
 cid = doc["property"]
-binary = "/verif/build/worker-%s%s.test" % (cid, "-race" if doc.get("build") == "race" else "")
-d = tempfile.mkdtemp(dir="/verif/build/tmp")
+V = os.path.dirname(os.path.dirname(os.path.abspath(__file__)))
+binary = V + "/build/worker-%s%s.test" % (cid, "-race" if doc.get("build") == "race" else "")
+d = tempfile.mkdtemp(dir=V + "/build/tmp")
 json.dump(doc["plan"], open(d + "/p", "w"))
 json.dump({"check": cid, "mode": "replay", "plan_file": d + "/p", "out": d + "/o", "keep_log": True}, open(d + "/j", "w"))
 env = dict(os.environ, SIM_JOB=d + "/j", GOMAXPROCS="1")
